@@ -312,3 +312,23 @@ def parse_corr_matrix(text):
     body = text[i + len("Correlation Matrix:"):j]
     nums = re.findall(r"[-+]?(?:\d+\.?\d*|\.\d+)(?:[eE][-+]?\d+)?|nan|inf", body)
     return [float(v) for v in nums]      # flat, row-major (numpy may wrap long rows)
+
+
+def corpus(pid):
+    """past false alarms / disagreements kept as regression inputs: corpus/<pid>/*.json (a case, or
+    a replay file whose failure carries one); always run first"""
+    import glob
+    import json
+    import os
+    root = os.path.join(os.path.dirname(os.path.dirname(os.path.abspath(__file__))), "corpus", pid)
+    out = []
+    for fn in sorted(glob.glob(os.path.join(root, "*.json"))):
+        try:
+            with open(fn) as f:
+                d = json.load(f)
+            c = d.get("failure", {}).get("case") if "failure" in d else d
+            if c and "x" in c and "model" in c:
+                out.append(c)
+        except (OSError, ValueError):
+            continue
+    return out
